@@ -561,3 +561,6 @@ LEVEL_NOTE = (
     'their parser still raises UnprovisionedError.'
 )
 TECHNIQUE = 'property-based testing (Hypothesis, byte-stream driven generators) vs reference coverage model + matcher/parser cross-check'
+
+# coverage-guided (atheris) pass of the thorough tier: (campaign, libFuzzer runs, instrumented module prefixes)
+FUZZ = [('pool', 20000, ['forml.io._input', 'forml.io.dsl.parser'])]
